@@ -253,4 +253,46 @@ end
 
 end
 
+/-! ## functions
+
+  A generated template function
+
+      name = function(opt_data, opt_sb, opt_ijData) {
+        opt_data = opt_data || {};        // only when every declared parameter is optional
+        var output = '';
+        body
+        return output;
+      };
+
+  and the call of one by name through the table of the functions loaded (§13.2.1 [[Call]]: a fresh environment, the
+  parameter bound to the argument; `return` of the output variable).  The calls a body makes go through the same
+  table, one level of `depth` down; `depth` 0 and a name that is not in the table are `unspec`. -/
+
+structure JsFunc where
+  name : Bytes
+  optional : Bool
+  body : JsStmts
+
+/-- `opt_data = opt_data || {}` -/
+def defaultData (optional : Bool) (d : JVal) : JVal := if optional && !toBoolean d then .obj [] else d
+
+def sOutputVar : Bytes := [111, 117, 116, 112, 117, 116]
+
+def callFn (F : Bytes → List Expr → JVal → JOut) (table : List JsFunc) (fuel : Nat) : Nat → Bytes → JVal → JOut
+  | 0, _, _ => .unspec
+  | depth + 1, name, data =>
+    match table.find? (fun f => f.name == name) with
+    | none => .unspec
+    | some f =>
+      match defaultData f.optional data with
+      | .obj kvs =>
+        (match execStmts F (callFn F table fuel depth) fuel f.body ⟨kvs, none, [(sOutputVar, .str [])]⟩ with
+          | .ok e =>
+            (match e.locals.find? (·.1 == sOutputVar) with
+              | some kv => .val kv.2
+              | none => .unspec)
+          | .error => .error
+          | .unspec => .unspec)
+      | _ => .unspec           -- `opt_data.k` of a primitive: outside the subset
+
 end SoyVerif.Spec.JsStmt
